@@ -159,6 +159,18 @@ pub fn g2_coord(p: G2, which: usize, c: Fq2) -> Option<G2> {
     let got = [r.x(), r.y(), r.z()][which.min(2)];
     if got == c { Some(r) } else { None }
 }
+/// an element c0 + c1 u of Fq2 with norm c0^2 + 2 c1^2 = n and both components non-zero
+pub fn norm_elem<R: Rng>(rng: &mut R, n: Fq) -> Option<Fq2> {
+    for _ in 0..12 {
+        let c1 = rand_fq_nonzero(rng);
+        if let Some(c0) = (n - (c1 * c1 + c1 * c1)).sqrt() {
+            if !c0.is_zero() {
+                return Some(Fq2::new(if rng.gen() { c0 } else { -c0 }, c1));
+            }
+        }
+    }
+    None
+}
 /// small constants a raw coordinate may coincide with: 1/2, -1/2, 1, -1, 2, and the element whose Montgomery limbs are 1
 pub fn small_const<R: Rng>(rng: &mut R) -> Fq {
     let two = Fq::one() + Fq::one();
@@ -267,8 +279,20 @@ pub fn g2_rep<R: Rng>(rng: &mut R, p: G2, tag: &str) -> G2 {
         "S" => {
             // lambda: 2, -1, i, a purely imaginary element, a real element, a general element
             // (z shares a component with a special constant without being it: real part 1, imaginary part 1, real part 0 ...)
-            let sel = rng.gen_range(0..16);
-            if sel >= 13 {
+            let sel = rng.gen_range(0..19);
+            if sel >= 16 {
+                // z of prescribed NORM (the first quantity Fq2::inverse computes, handed to the Fq inversion): 1, -1, 4, 1/4, 2^-256 ...
+                let n = match rng.gen_range(0..5) {
+                    0 | 1 => Fq::one(),
+                    2 => mont_small(rng.gen_range(1..3)),
+                    _ => small_const(rng),
+                };
+                if let Some(l) = norm_elem(rng, n) {
+                    let mut p = p;
+                    p.normalize();
+                    return g2_scale(p, l);
+                }
+            } else if sel >= 13 {
                 let (which, c) = (rng.gen_range(0..3usize).min(1), small_const2(rng));
                 if let Some(r) = g2_coord(p, which, c) {
                     return r;
